@@ -370,6 +370,77 @@ func run(c *Ctx) {
 		}
 	}
 
+	// ---- fat parents: a parent whose context outgrew the 500-byte buffer (so its array has spare capacity),
+	//      several children that each add fields, events from the first children after the later ones were built ----
+	for i := 0; i < n/10; i++ {
+		r := c.R.Fork()
+		p := []stmt{{K: "root"}, {K: "with", X: 0}}
+		cur := 1
+		total := 1
+		for total < 520+r.Intn(400) {
+			v := strings.Repeat("f", 40+r.Intn(160))
+			p = append(p, stmt{K: "op", X: cur, Key: fmt.Sprintf("f%d", len(p)), Val: v})
+			cur = len(p) - 1
+			total += len(v) + 10
+		}
+		p = append(p, stmt{K: "logger", X: cur})
+		parent := len(p) - 1
+		if r.Bool() { // grown once more through UpdateContext
+			p = append(p, stmt{K: "update", X: parent, KVs: []string{"u", strings.Repeat("u", 30+r.Intn(100))}})
+		}
+		var kids []int
+		for j := 0; j < 2+r.Intn(3); j++ {
+			p = append(p, stmt{K: "with", X: parent})
+			p = append(p, stmt{K: "op", X: len(p) - 1, Key: fmt.Sprintf("who%d", j), Val: fmt.Sprintf("kid%d", j)})
+			p = append(p, stmt{K: "logger", X: len(p) - 1})
+			kid := len(p) - 1
+			if r.Bool() {
+				p = append(p, stmt{K: "update", X: kid, KVs: []string{fmt.Sprintf("url%d", j), fmt.Sprintf("/path/%d", j)}})
+			}
+			kids = append(kids, kid)
+		}
+		for _, k := range kids {
+			p = append(p, stmt{K: "emit", X: k})
+		}
+		p = append(p, stmt{K: "emit", X: parent})
+		emitCase(p, false)
+	}
+
+	// ---- pooled helper events carry nothing over: the stack flag ----
+	{
+		w := &lastWriter{}
+		zerolog.ErrorStackMarshaler = func(err error) interface{} { return "STACK-OF:" + err.Error() }
+		stacky := zerolog.New(w).With().Stack().Logger()
+		plain := zerolog.New(w)
+		boom := fmt.Errorf("boom")
+		bad := ""
+		for round := 0; round < 30 && bad == ""; round++ {
+			evs := []*zerolog.Event{stacky.Info().Err(boom), stacky.Info().Stack().Err(boom), stacky.Info().Err(boom)}
+			for _, e := range evs {
+				e.Msg("s")
+			}
+			checks := []func(){
+				func() { plain.Info().Dict("d", zerolog.Dict().Err(boom)).Msg("p") },
+				func() { plain.Info().Array("a", zerolog.Arr().Object(errObj{boom})).Msg("p") },
+				func() { plain.Info().Fields([]interface{}{"o", errObj{boom}}).Msg("p") },
+				func() { l := plain.With().Object("co", errObj{boom}).Logger(); l.Info().Msg("p") },
+			}
+			for k, f := range checks {
+				w.last = nil
+				f()
+				if bytes.Contains(w.last, []byte("STACK-OF")) {
+					bad = fmt.Sprintf("check %d (0 Dict().Err, 1 Arr().Object, 2 Fields(marshaler), 3 With().Object): a logger without Stack() emitted %q", k, w.last)
+					break
+				}
+			}
+		}
+		zerolog.ErrorStackMarshaler = nil
+		if bad != "" {
+			c.Violate(Violation{Key: "pooled-event-stale-stack", Monitor: "stale-pooled-state", Desc: bad, Case: "events of a Stack() logger finalized, then Err inside helper events of a plain logger"})
+		}
+		c.Res.Evaluations += 120
+	}
+
 	// ---- GetCtx: never a context left behind by another event ----
 	{
 		var seen []interface{}
@@ -466,6 +537,10 @@ func run(c *Ctx) {
 		}
 	}
 }
+
+type errObj struct{ err error }
+
+func (o errObj) MarshalZerologObject(e *zerolog.Event) { e.Err(o.err) }
 
 type writerFunc func(p []byte)
 
